@@ -187,7 +187,7 @@ pub fn run(ctx: &Ctx) {
 	let env = env();
 	let miri = cfg!(miri);
 	let offs = offsets();
-	let step: i64 = if miri { 26 * 3600 } else { ctx.scale(900, 60) as i64 };
+	let step: i64 = if miri { 26 * 3600 } else { ctx.scale(300, 60) as i64 };
 	let crl_every: u64 = if miri { 4 } else { ctx.scale(10, 1) };
 
 	// --- boundary windows: every `step` seconds within +-26h of the four boundaries, all offsets
@@ -258,7 +258,7 @@ pub fn run(ctx: &Ctx) {
 	// --- random instants over the whole range
 	let do_r = ctx.replay.as_ref().map_or(true, |r| r.workload == "random");
 	if do_r {
-		let n = if miri { 3 } else { ctx.scale(5_000, 200_000) };
+		let n = if miri { 3 } else { ctx.scale(20_000, 400_000) };
 		par_for(n, if miri { 1 } else { ctx.threads }, |i| {
 			if let Some(r) = &ctx.replay {
 				if r.index != i {
